@@ -445,11 +445,22 @@ pub fn recommended_registry_package_url_to_nv(
   url: &Url,
 ) -> Option<PackageNv> {
   let path = url.as_str().strip_prefix(registry_url.as_str())?;
-  let path = path.strip_prefix('/').unwrap_or(path);
+  // exactly one slash separates the registry url from the package path
+  let path = if registry_url.as_str().ends_with('/') {
+    path
+  } else {
+    path.strip_prefix('/')?
+  };
   let mut parts = path.split('/');
   let scope = parts.next()?;
   let name = parts.next()?;
-  let version = parts.next()?;
+  let version_text = parts.next()?;
+  // parsing is lenient (ex. `v1.0.0`), but only the normalized text is used
+  // in the url of the package
+  let version = deno_semver::Version::parse_standard(version_text).ok()?;
+  if version.to_string() != version_text {
+    return None;
+  }
   Some(PackageNv {
     name: {
       capacity_builder::StringBuilder::<StackString>::build(|builder| {
@@ -459,7 +470,7 @@ pub fn recommended_registry_package_url_to_nv(
       })
       .unwrap()
     },
-    version: deno_semver::Version::parse_standard(version).ok()?,
+    version,
   })
 }
 
